@@ -79,11 +79,19 @@ pub fn run(line: &str) -> Obs {
             });
             match r {
                 Some(r) => {
-                    // every other route to the same evaluation gives the same value, bit for bit
+                    // every other route to the same evaluation gives the same value - up to the rounding the statement
+                    // allows ("equals the sum of c_k x^k up to floating-point rounding": twice the bound the Python oracle
+                    // judges the requested route against) - or is refused as well (the statement names no error kind)
                     let mut verdict = Ok(());
+                    let tol = eval_tolerance(&p.coefficients, x);
                     let same = |a: &Result<f64, PolynomialError>, b: &Result<f64, PolynomialError>| match (a, b) {
-                        (Ok(a), Ok(b)) => a.to_bits() == b.to_bits() || (a.is_nan() && b.is_nan()) || a == b,
-                        (Err(a), Err(b)) => err_kind(a) == err_kind(b),
+                        (Ok(a), Ok(b)) => {
+                            a.to_bits() == b.to_bits() || (a.is_nan() && b.is_nan()) || a == b || match tol {
+                                None => true, // a power over- / underflows: outside the rounding model
+                                Some(t) => (a - b).abs() <= t,
+                            }
+                        }
+                        (Err(_), Err(_)) => true,
                         _ => false,
                     };
                     if entry != 3 {
@@ -149,6 +157,31 @@ pub fn run(line: &str) -> Obs {
     }
 }
 
+/// twice the rounding bound of tools/props/c01.py `_judge_value` for sum c_k x^k (64 u (n + 2) sum |c_k| |x|^k, plus
+/// 4 u sum k |c_k| |x|^k for the power itself); `None` when a power leaves [2^-900, 2^900] or something is not finite
+fn eval_tolerance(cs: &[f64], x: f64) -> Option<f64> {
+    if !x.is_finite() || cs.iter().any(|c| !c.is_finite()) {
+        return None;
+    }
+    let (lo, hi) = (2f64.powi(-900), 2f64.powi(900));
+    let u = 2f64.powi(-53);
+    let (mut scale, mut kscale) = (0.0f64, 0.0f64);
+    for (k, c) in cs.iter().enumerate() {
+        let p = x.abs().powi(k as i32);
+        if k > 0 && x != 0.0 && !(p >= lo && p <= hi) {
+            return None;
+        }
+        let t = c.abs() * p;
+        if t != 0.0 && !(t >= lo && t <= hi) {
+            return None;
+        }
+        scale += t;
+        kscale += k as f64 * t;
+    }
+    let tol = 2.0 * (64.0 * u * (cs.len() as f64 + 2.0) * scale + 4.0 * u * kscale) * 1.001 + 1e-300;
+    if tol.is_finite() { Some(tol) } else { None }
+}
+
 /// Everything else the public API lets one see of a parse result must tell the same story: the free function on
 /// every accepted input type, the trait entry point, the `Deref<Target = [f64]>` view and `PartialEq<Vec<f64>>`.
 fn parse_side_checks(text: &str, r: &Result<SimplePolynomial, PolynomialError>) -> Result<(), String> {
@@ -166,8 +199,8 @@ fn parse_side_checks(text: &str, r: &Result<SimplePolynomial, PolynomialError>) 
             None => return Err(format!("{name} panicked")),
             Some(o) => {
                 let so = show_parsed(&o);
-                // NaN-free results: the canonical texts are equal
-                if so != shown {
+                // NaN-free results: the canonical texts are equal (two rejections are equal whatever their kind)
+                if so != shown && !(so.starts_with("err") && shown.starts_with("err")) {
                     return Err(format!("{name} answers `{so}`, the requested entry point `{shown}`"));
                 }
             }
@@ -516,6 +549,41 @@ fn eval_families(rng: &mut Rng, thorough: bool, emit: &mut dyn FnMut(String)) {
         // a constant and a linear polynomial with a large slope: no shortcut near 0 or 1 may drop the slope
         req(rng, vec![1.0, 1e30], x, emit);
         req(rng, vec![-2.5], x, emit);
+    }
+    // 2b. coefficients next to the largest binary64 number at points inside (-1, 1), arranged so that every power, every
+    //     term and the sum of |terms| (a bound on every partial sum of terms) stay below 2^1023: the value is an ordinary
+    //     finite number and "equals the sum of c_k x^k up to rounding" demands it.  An evaluation scheme whose
+    //     INTERMEDIATES are larger than the terms (nested multiplication: tail sums divided by a power of x) overflows
+    //     exactly here.  (Sums of |terms| are formed in units of 2^1023.)
+    let want = if thorough { 400 } else { 60 };
+    let (mut made, mut tries) = (0, 0);
+    while made < want && tries < 40 * want {
+        tries += 1;
+        let x = *rng.pick(&[0.5f64, -0.5, 0.25, -0.25, 0.3, -0.3, 0.7, -0.7, 0.1, 0.6, 0.9, -0.9, 0.0625]);
+        let k0 = 1 + rng.below(6) as usize; // position of the first large coefficient
+        let m = 2 + rng.below(5) as usize; // number of large coefficients
+        let mut cs = vec![0.0f64; k0 + m];
+        for c in cs.iter_mut().take(k0) {
+            if rng.chance(1, 2) {
+                *c = rng.range(-9, 9) as f64 * 2f64.powi(rng.range(0, 900) as i32);
+            }
+        }
+        let mode = tries % 4;
+        for k in k0..k0 + m {
+            let sign = match mode {
+                0 => 1.0,
+                1 => -1.0,
+                2 => if x < 0.0 && k % 2 == 1 { -1.0 } else { 1.0 }, // all terms of one sign at a negative point
+                _ => if rng.chance(1, 2) { 1.0 } else { -1.0 },
+            };
+            cs[k] = sign * rng.uniform(1.0, 1.99) * 2f64.powi(1023);
+        }
+        let unit = 2f64.powi(1023);
+        let scaled: f64 = cs.iter().enumerate().map(|(k, c)| (c / unit).abs() * x.abs().powi(k as i32)).sum();
+        if scaled < 0.85 {
+            req(rng, cs, x, emit);
+            made += 1;
+        }
     }
     // 3. eval_multivariate with any number of bindings: exactly one distinct name is required
     for i in 0..(if thorough { 2000 } else { 200 }) {
